@@ -389,6 +389,72 @@ pub fn run(tier: &str) -> i32 {
     rep.transitions += tsel.len() as u64 * 2;
     acc = Acc::merge(acc, tr.acc);
 
+    // ---- --input-parameters with several data files: every data file is merged with the parameters, as when it is given alone
+    let prules = "rule rp { zparam == 1 }\nrule ra when zparam exists { a exists }\nrule rb { b == 1 or zother exists }\n";
+    let params = ["{\"zparam\":1}", "{\"zparam\":2,\"zother\":true}"];
+    let psel = ordered_selections(DOCS.len() - 1, 3); // DOCS[0..5] (all maps)
+    let pmodes = ["plain", "structured", "junit"];
+    let pn = psel.len() * params.len() * pmodes.len();
+    let pr = crate::par::run(pn, 0, crate::par::deadline_secs(if thorough { 600 } else { 20 }), Acc::new, |k, acc| {
+        let (si, pi, mode) = (k / (params.len() * pmodes.len()), (k / pmodes.len()) % params.len(), pmodes[k % pmodes.len()]);
+        let sel = &psel[si];
+        let r = put("c12p/p.guard", prules);
+        let pf = put("c12p/params.json", params[pi]);
+        let flags: Vec<String> = match mode {
+            "plain" => sv(&["-S", "all"]),
+            "structured" => sv(&["--structured", "-o", "json", "-S", "none"]),
+            _ => sv(&["--structured", "-o", "junit", "-S", "none"]),
+        };
+        let verdicts = |out: &str, dname: &str| -> Option<Vec<(String, St)>> {
+            match mode {
+                "plain" => parse_plain_pairs(out).into_iter().find(|((_, d), _)| d.ends_with(dname)).map(|(_, v)| v.1),
+                "structured" => parse_structured_json(out).ok()?.iter().find(|fr| fr.name.ends_with(dname)).map(|fr| {
+                    let mut l: Vec<(String, St)> = vec![];
+                    l.extend(fr.compliant.iter().map(|n| (bare(n), St::Pass)));
+                    l.extend(fr.not_applicable.iter().map(|n| (bare(n), St::Skip)));
+                    l.extend(fr.not_compliant.iter().map(|(n, _)| (bare(n), St::Fail)));
+                    l.sort();
+                    l
+                }),
+                _ => parse_junit(out).ok().map(|cs| cs.iter().filter(|c| c.suite.ends_with(dname)).map(|c| (c.name.clone(), match c.mark.as_str() { "pass" => St::Pass, "fail" => St::Fail, _ => St::Skip })).collect()),
+            }
+        };
+        let mut argv = sv(&["validate", "-r", &r, "-i", &pf]);
+        let mut names = vec![];
+        for (pos, d) in sel.iter().enumerate() {
+            let nm = format!("c12p/{}_D{}.json", pos, d);
+            argv.push("-d".into());
+            argv.push(put(&nm, DOCS[*d]));
+            names.push(format!("{}_D{}.json", pos, d));
+        }
+        argv.extend(flags.clone());
+        let o = cli_inproc(&argv, "");
+        acc.traces += 1;
+        *acc.outcomes.entry(format!("params-batch-exit-{}", o.status())).or_insert(0) += 1;
+        let mut any_fail = false;
+        for (pos, d) in sel.iter().enumerate() {
+            let mut a1 = sv(&["validate", "-r", &r, "-i", &pf, "-d"]);
+            a1.push(put(&format!("c12p/{}_D{}.json", pos, d), DOCS[*d]));
+            a1.extend(flags.clone());
+            let o1 = cli_inproc(&a1, "");
+            acc.traces += 1;
+            any_fail |= o1.status() == 19;
+            let (got, want) = (verdicts(&o.out, &names[pos]), verdicts(&o1.out, &names[pos]));
+            if got != want || want.is_none() {
+                acc.violate(&format!("params-pair-differs:{}", mode), format!("data {:?} params {} mode {}: D{} reports {:?} in the batch but {:?} alone", sel, params[pi], mode, d, got, want), json!({"kind":"cli","argv":argv,"stdin":"","files":{"rules":prules,"params":params[pi],"data":sel.iter().map(|d| DOCS[*d]).collect::<Vec<_>>()},"expected":format!("{:?}", want),"observed":format!("{:?}", got)}));
+            }
+        }
+        if (o.status() == 19) != any_fail || (o.status() != 19 && o.status() != 0) {
+            acc.violate(&format!("params-batch-exit:{}", mode), format!("data {:?} params {} mode {}: exit {} but {}", sel, params[pi], mode, o.status(), if any_fail { "some file fails alone" } else { "no file fails alone" }), json!({"kind":"cli","argv":argv,"stdin":"","files":{"rules":prules,"params":params[pi]},"expected":"failure iff some pair fails","observed":format!("exit {}", o.status())}));
+        }
+    }, Acc::merge);
+    rep.states += pr.done as u64;
+    rep.transitions += pr.done as u64;
+    if pr.capped {
+        rep.caps_hit.push(format!("wall-clock cap: {} of {} parameter batches", pr.done, pn));
+    }
+    acc = Acc::merge(acc, pr.acc);
+
     rep.distinct_nontrivial = (rsel.len() * dsel.len()) as u64;
     rep.extra.insert("rules_pool".into(), json!(RULES));
     rep.extra.insert("data_pool".into(), json!(DOCS));
